@@ -42,6 +42,14 @@ P = {
    "Overlap scenarios of operations that run on different goroutines in production, explored over all interleavings within a preemption bound (quick 1, thorough 2) in a -race build: the controlled runtime's token hand-offs carry no happens-before edge and shimmed primitives perform the real synchronisation, so ThreadSanitizer decides, per explored schedule, whether two conflicting vouch accesses are unordered. Schedules are the quantifier.",
    "Trusted: ThreadSanitizer; release/acquire annotations of model-only primitives (Cond, semaphore, WaitGroup); scenario list (scheduler, cache, block relay; more are added as other harnesses come online).",
    MC + " under the Go race detector (preemption-bounded)", "DESIGN.md §6 C17"),
+ "C09": ("model_checking",
+   "The real best and deadline builder-bid strategies (real BLS verification of relay signatures) against n=1..2 (thorough 3) scripted relays: per relay one eligibility defect or none x value x builder x payload header x latency (x per-attempt value drift for the deadline strategy) x builder configurations (offset, factor incl. exclusion), explored with deviation-bounded schedules; plus the block relay's AuctionBlock -> BuilderBid cache. The oracle recomputes eligibility and scores independently and works on the observed return instant.",
+   "Trusted: herumi BLS; relays honour cancellation; score formula as documented; quick tier restricts the latency/value/config alphabets.",
+   MC + " (deviation-bounded)", "DESIGN.md §6 C09"),
+ "C10": ("model_checking",
+   "Execution configurations built as JSON and decoded by the real version-dispatching unmarshaller: presence lattice of fee recipient / gas limit / grace / min value over top level, base relay, proposer entry and proposer relay, relay sets (inherited, new, disabled, reset), ordered proposer lists mixing pubkey and (anchored / unanchored) account regexes, for 2 pubkeys x 3 account names, v2 and legacy v1; compared with an independent reference resolver written from the documentation, and checked for marshal/unmarshal meaning preservation. Configurations are enumerated completely within the bounded grammar (pairwise in quick, fuller in thorough).",
+   "Trusted: the reference resolver (from docs/executionconfig.md and docs/execlayer.md); relay order compared as a set; null entries / regex alternation are C16 / C13 inputs.",
+   SEQ, "DESIGN.md §6 C10"),
 }
 checks = []
 for pid in ids:
